@@ -231,6 +231,24 @@ def oracle(seed, tier):
                 viol.append({"what": "min depth 50 km listed at all four corners (corners with a zero coordinate): feature present at depth 25 km", "world_json": w, "cmd": lines[i],
                              "probe": "listed-value-at-corner-with-zero-coordinate"})
                 break
+    # ---- MODEL-level depth surfaces (a model's own min / max depth given at points): every area feature kind x model kind (temperature, composition, velocity, grains, and the
+    # water-content model's wiping of the other compositions) x constant / affine-surface combinations; the local bound is the affine function, the expected value is known
+    import prop_C05
+    for wi, (w, exp) in enumerate(prop_C05.range_surface_cases(random.Random(seed * 977 + 111))):
+        path = os.path.join(wdir, "ms_%d.wb" % wi)
+        json.dump(w, open(path, "w"))
+        lines = ["world w %s -" % path] + [q3("w", [p[0], p[1], 1000e3 - d], d, [pr]) for (p, d, pr, e, nt, nm) in exp]
+        rc, out, err = proto.run_harness(lines)
+        if rc != 0 or len(out) != len(lines) or out[0] != "ok":
+            viol.append({"what": "library failed on a model-level surface world: rc=%s %s %s" % (rc, out[:1], err[-200:]), "world_json": w}); continue
+        for (p, d, pr, e, nt, nm), o, line in zip(exp, out[1:], lines[1:]):
+            a = parse_answer(o)
+            cases += 1
+            nontriv += 1 if nt else 0
+            if not (a[0] == "ok" and len(a[1]) == len(e) and all(abs(x - y) <= 1e-9 * max(1.0, abs(x), abs(y)) for x, y in zip(a[1], e))):
+                viol.append({"what": "%s: library %s, expected %s at depth %.6g, surface point %s (the model's own depth surface is affine: the local bound is known)" % (
+                    nm, a[1][:4] if a[0] == "ok" else a, [float("%.10g" % x) for x in e[:4]], d, p), "world_json": w, "world": path, "cmd": line})
+                break
     return {"violations": trim_violations(viol, 20), "summary": {"cases": cases, "violations": len(viol), "nontrivial": nontriv}, "samples": samples}
 
 
